@@ -216,4 +216,134 @@ theorem step_closeweb_inv (legacy : Bool) (s : State) (k : Nat) (h : PickInv s) 
       exact ⟨_, _, rfl, (closeSt_core s k d h.core hk hd).inv (closeSt_doneIdle s k d h.doneIdle)⟩
   · simp at hr; subst hr; exact ⟨_, _, rfl, h⟩
 
+
+theorem cancelState_peers_ne (s : State) (p q : Nat) (h : q ≠ p) : (cancelState s p).peers q = s.peers q := by
+  unfold cancelState; split <;> simp [h]
+
+theorem cancelState_requested (s : State) (p : Nat) (h : PickCore s) (j : Nat) (hj : j < s.n) :
+    ∀ q ∈ ((cancelState s p).pieces j).requested, q ∈ (s.pieces j).requested ∧ q ≠ p := by
+  intro q hq
+  unfold cancelState at hq
+  split at hq
+  · rename_i hdl
+    refine ⟨hq, ?_⟩
+    intro hqp; subst hqp
+    have := h.reqDl j hj q hq
+    rw [hdl] at this; simp at this
+  · rename_i i af hdl
+    simp only [setPeer_pieces, setPiece_pieces, Piece.cancel] at hq
+    split at hq
+    · rename_i hji; subst hji
+      have := (h.nodup j hj).2.1
+      rw [this.mem_erase_iff] at hq
+      exact ⟨hq.2, hq.1⟩
+    · rename_i hji
+      refine ⟨hq, ?_⟩
+      intro hqp; subst hqp
+      have := h.reqDl j hj q hq
+      rw [hdl] at this; simp at this; exact hji this.symm
+
+theorem cancelAll_spec : ∀ (l : List Nat) (s : State), PickCore s → l.Nodup →
+    (∀ p ∈ l, p < s.np ∧ (s.peers p).dl ≠ none) →
+    ∃ s', cancelAll s l = .ok s' ∧ PickCore s' ∧ s'.n = s.n ∧
+      (∀ j, (s'.pieces j).done = (s.pieces j).done) ∧
+      (∀ j, j < s.n → ∀ q ∈ (s'.pieces j).requested, q ∈ (s.pieces j).requested ∧ q ∉ l)
+  | [], s, h, _, _ => ⟨s, rfl, h, rfl, fun _ => rfl, fun j _ q hq => ⟨hq, by simp⟩⟩
+  | p :: rest, s, h, hnd, hl => by
+    have hp := hl p (by simp)
+    simp only [cancelAll]
+    cases hdl : (s.peers p).dl with
+    | none => exact absurd hdl hp.2
+    | some x =>
+      simp only []
+      rw [cancelPeer_eq s p h.dlReq hp.1]
+      simp only [bind, Except.bind]
+      have hnd' := List.nodup_cons.mp hnd
+      obtain ⟨s', he, hc, hn, hdone, hreq⟩ := cancelAll_spec rest (cancelState s p) (cancelState_core s p h hp.1) hnd'.2 (by
+        intro q hq
+        have hqp : q ≠ p := by intro e; subst e; exact hnd'.1 hq
+        rw [cancelState_peers_ne s p q hqp, cancelState_np]
+        exact hl q (by simp [hq]))
+      refine ⟨s', he, hc, by rw [hn, cancelState_n], ?_, ?_⟩
+      · intro j; rw [hdone j, (cancelState_flags s p j).1]
+      · intro j hj q hq
+        have h1 := hreq j (by rw [cancelState_n]; exact hj) q hq
+        have h2 := cancelState_requested s p h j hj q h1.1
+        refine ⟨h2.1, ?_⟩
+        simp only [List.mem_cons, not_or]
+        exact ⟨h2.2, h1.2⟩
+
+theorem step_wok_inv (legacy : Bool) (s : State) (i : Nat) (web : Bool) (h : PickInv s) :
+    ∀ r ∈ step legacy s (.wok i web), ∃ s' o, r = .ok (s', o) ∧ PickInv s' := by
+  intro r hr
+  simp only [step] at hr
+  split at hr
+  · rename_i hpre
+    obtain ⟨hi, hw, hnd⟩ := hpre
+    -- the flags are set first: everything but `DoneIdle` for piece `i` survives
+    have hc1 : PickCore (setPiece s i { s.pieces i with writing := false, done := true }) := by
+      obtain ⟨h1, h2, h3, h4, h5, h6, h7, h8, h9, h10, h11, h12, h13, h14, h15⟩ := h
+      constructor
+      case avail => avail_same h14
+      all_goals clause_auto
+    have hd1 : ∀ j, j < s.n → j ≠ i → ((setPiece s i { s.pieces i with writing := false, done := true }).pieces j).done = true →
+        ((setPiece s i { s.pieces i with writing := false, done := true }).pieces j).requested = [] := by
+      intro j hj hji hdone
+      simp only [setPiece_pieces, hji, if_false] at hdone ⊢
+      exact h.doneIdle j hj hdone
+    generalize hs1 : setPiece s i { s.pieces i with writing := false, done := true } = s1 at *
+    have hn1 : s1.n = s.n := by rw [← hs1]; rfl
+    have hdone1 : (s1.pieces i).done = true := by rw [← hs1]; simp
+    -- WebseedStopAt, if the piece belonged to a web seed and was written by a peer
+    have hstop : ∀ r1 : R State, (r1 = .ok s1 ∨ ∃ k, (s1.pieces i).webseed = some k ∧
+          r1 = (webseedStopAt s1 k i).map (fun x : State × Bool => x.1)) →
+          ∃ s2, r1 = .ok s2 ∧ PickCore s2 ∧ s2.n = s1.n ∧ s2.np = s1.np ∧ s2.peers = s1.peers ∧
+          (∀ j, (s2.pieces j).done = (s1.pieces j).done ∧ (s2.pieces j).requested = (s1.pieces j).requested) := by
+      intro r1 hr1
+      rcases hr1 with hr1 | ⟨k, hk, hr1⟩
+      · exact ⟨s1, hr1, hc1, rfl, rfl, rfl, fun j => ⟨rfl, rfl⟩⟩
+      · have hwo := hc1.webOwner i (by omega) k (by simp [hk])
+        obtain ⟨hkn, d, hd, hbi, hie⟩ := hwo
+        simp only [Option.mem_def] at hd
+        rw [webseedStopAt_eq s1 k d i hc1.srcOk hkn hd hbi (by omega)] at hr1
+        have hf := stopSt_frame s1 k d i
+        refine ⟨_, hr1, stopSt_core s1 k d i hc1 hkn hd hbi (by omega), hf.1, hf.2.1, hf.2.2.2.1, ?_⟩
+        intro j; exact ⟨(hf.2.2.2.2.2.2.2 j).2.2.1, (hf.2.2.2.2.2.2.2 j).2.1⟩
+    simp only [List.mem_singleton] at hr
+    have hmid : ∃ s2, r = ((.ok s2 : R State).bind fun s2 => (cancelAll s2 (s2.pieces i).requested).map (·, Obs.done)) ∧
+        PickCore s2 ∧ s2.n = s1.n ∧ s2.np = s1.np ∧ s2.peers = s1.peers ∧
+        (∀ j, (s2.pieces j).done = (s1.pieces j).done ∧ (s2.pieces j).requested = (s1.pieces j).requested) := by
+      split at hr
+      · rename_i k hk
+        obtain ⟨s2, he2, rest⟩ := hstop _ (Or.inr ⟨k, hk, rfl⟩)
+        rw [he2] at hr
+        exact ⟨s2, hr, rest⟩
+      · obtain ⟨s2, he2, rest⟩ := hstop _ (Or.inl rfl)
+        exact ⟨s1, hr, hc1, rfl, rfl, rfl, fun j => ⟨rfl, rfl⟩⟩
+    clear hr
+    obtain ⟨s2, hr, hc2, hn2, hnp2, hpe2, hfl2⟩ := hmid
+    simp only [bind, Except.bind] at hr
+    obtain ⟨s3, he3, hc3, hn3, hdone3, hreq3⟩ := cancelAll_spec (s2.pieces i).requested s2 hc2
+      (hc2.nodup i (by omega)).2.1 (by
+        intro p hp
+        have h1 := hc2.reqDl i (by omega) p hp
+        have h2 := hc2.havingOpen i (by omega) p (hc2.reqSubHaving i (by omega) p hp)
+        refine ⟨h2.1, ?_⟩
+        intro hnone; rw [hnone] at h1; simp at h1)
+    rw [he3] at hr
+    simp [Except.map] at hr; subst hr
+    refine ⟨_, _, rfl, hc3.inv ?_⟩
+    intro j hj hdone
+    rw [hdone3 j, (hfl2 j).1] at hdone
+    have hjn : j < s2.n := by omega
+    apply List.eq_nil_iff_forall_not_mem.mpr
+    intro q hq
+    have h1 := hreq3 j hjn q hq
+    by_cases hji : j = i
+    · subst hji; exact h1.2 h1.1
+    · have := hd1 j (by omega) hji hdone
+      rw [(hfl2 j).2, this] at h1
+      simp at h1
+  · simp at hr; subst hr; exact ⟨_, _, rfl, h⟩
+
 end Rain.Picker
